@@ -411,6 +411,7 @@ def run_property(pid, tier, seed, replay=None):
             for b in broken:
                 f.write("broken_obligation: %s: %s\n" % (b[0], b[1][:600]))
         print("VIOLATION property=%s replay=%s" % (pid, os.path.relpath(rp, VERIF)))
+        print("".join("  | " + l for l in open(rp).readlines()[:14]), end="")
         rc = 1
     elif broken or ctx.violations:
         rp = replay_path(pid, nrep)
@@ -422,6 +423,7 @@ def run_property(pid, tier, seed, replay=None):
                 f.write("broken_correspondence: %s: %s\n%s\n" % (v[0], v[1], v[2]))
             f.write("seed: %d\ntier: %s\n" % (seed, tier))
         print("VIOLATION property=%s replay=%s no-failing-input-found" % (pid, os.path.relpath(rp, VERIF)))
+        print("".join("  | " + l[:400] for l in open(rp).readlines()[:14]), end="")
         rc = 1
 
     # ---------------- evidence
